@@ -1,5 +1,6 @@
 #include "ops.h"
 
+#include <malloc.h>
 #include <pthread.h>
 #include <valgrind/memcheck.h>
 #include <xmmintrin.h>
@@ -94,6 +95,21 @@ static int B_RAW(opplan_t* pl, int role, int fill, unsigned arg, size_t bytes, s
 static uint64_t rsl(rng_t* r, uint64_t n) { return stride_choice(n, (unsigned)(rng_u64(r) & 3)); }
 // limb counts: usually 0..max; one plan in eight on rings up to N = 1024 draws a larger count (up to 4*max + 5, i.e. 17
 // for max = 3): loops over limbs that are unrolled or blocked change regime there
+// rotation / automorphism exponent: three quarters from the whole int64 range (all magnitudes), a quarter special: 0, +-1, the
+// multiples and neighbours of N and 2N (identity, conjugation, -1 as a rotation), the ends of the documented range (-2^63, 2^63):
+// INT64_MIN itself is outside it (C09) and the unchanged tree negates p
+static int64_t plan_p(rng_t* r, uint64_t N) {
+  if ((rng_u64(r) & 3) == 0) {
+    const int64_t n = (int64_t)N;
+    const int64_t SP[] = {0, 1, -1, 2 * n, 2 * n + 1, 2 * n - 1, -(2 * n - 1), -(2 * n + 1), -2 * n, n, n + 1, n - 1, -n, INT64_MIN + 1, INT64_MIN + 2, INT64_MAX, INT64_MAX - 1, 4 * n + 1, 3, -3};
+    return SP[rng_u64(r) % ARRAY_LEN(SP)];
+  }
+  int64_t p = rng_sbits(r, 1 + (unsigned)(rng_u64(r) % 62));
+  const uint64_t q = rng_u64(r) % 5;
+  if (q == 0) p = (int64_t)(2 * N) * rng_sbits(r, 1 + (unsigned)(rng_u64(r) % 40));
+  else if (q == 1) p = (int64_t)N * (2 * rng_sbits(r, 20) + 1);
+  return p;
+}
 static __thread uint64_t plan_N;
 static uint64_t rsz(rng_t* r, uint64_t max) {
   const uint64_t t = rng_u64(r);
@@ -231,6 +247,7 @@ static void fill_buf(rng_t* r, const bufspec_t* b, void* p, size_t bytes) {
 }
 
 __thread int op_exec_repeat;
+static __thread int op_exec_oom;  // every allocation request made inside the call fails (build tag "oom")
 // data variant (shapes and scalar parameters still derive from the seed alone): 0 the seed's data; 1 other random data; 2 the seed's
 // data with the first two limbs (blocks of N words, or the two halves of the buffer) exchanged; 3 the seed's data with one word
 // exchanged between the first two limbs - the same multiset of values, the same sums, the same first words: what a checksum or a
@@ -370,7 +387,9 @@ void op_exec(const opdef_t* o, const env_t* env, uint64_t seed, int prefill, uns
   const unsigned csr0 = _mm_getcsr();
   unsigned short cw0, cw1;
   __asm__ volatile("fnstcw %0" : "=m"(cw0));
+  if (op_exec_oom) vp_oom_arm(1);
   o->call(&pl, p, env);
+  if (op_exec_oom) vp_oom_arm(0);
   __asm__ volatile("fnstcw %0" : "=m"(cw1));
   {
     // the rest of the CPU state a C caller relies on (System V ABI): direction flag clear, x87 register stack empty (a kernel
@@ -573,7 +592,7 @@ static void plan_unary(opplan_t* pl, rng_t* r, const env_t* e) {
   uint64_t rs = rsz(r, 3), as = rsz(r, 3);
   B_ZV(pl, R_OUT, F_NONE, 0, e->N, rs, rsl(r, e->N));
   B_ZV(pl, R_IN, F_I64, 61, e->N, as, rsl(r, e->N));
-  pl->s[0] = rng_sbits(r, 1 + (unsigned)(rng_u64(r) % 62));
+  pl->s[0] = plan_p(r, e->N);
   pl->u[0] = 1 + rng_u64(r) % 62;
   SHAPE(pl, "%s", szc(rs, as));
 }
@@ -616,9 +635,7 @@ static void plan_inplace_vec(opplan_t* pl, rng_t* r, const env_t* e) {
   pl->u[0] = rs; pl->u[1] = as;
   { int xi = B_ZV(pl, R_INOUT, F_I64, 61, e->N, rs > as ? rs : as, rsl(r, e->N)); if (rs > as) pl->b[xi].live_limbs = as + 1; }
   B_ZV(pl, R_IN, F_I64, 61, e->N, bs, rsl(r, e->N));
-  pl->s[0] = rng_sbits(r, 1 + (unsigned)(rng_u64(r) % 62));
-  // one call in five: p a multiple of 2N (the identity map: 0, +-2N, far multiples), one in five: p = N (negation)
-  { const uint64_t q = rng_u64(r) % 5; if (q == 0) pl->s[0] = (int64_t)(2 * e->N) * rng_sbits(r, 1 + (unsigned)(rng_u64(r) % 40)); else if (q == 1) pl->s[0] = (int64_t)e->N * (2 * rng_sbits(r, 20) + 1); }
+  pl->s[0] = plan_p(r, e->N);
   pl->u[2] = 1 + rng_u64(r) % 62;
   B_RAW(pl, R_SCRATCH, F_NONE, 0, vec_znx_normalize_base2k_tmp_bytes(e->fft64), 8);
   SHAPE(pl, "%s", szc(rs, as));
@@ -645,8 +662,7 @@ static void plan_inplace_big(opplan_t* pl, rng_t* r, const env_t* e) {
   pl->u[0] = rs; pl->u[1] = as; pl->u[2] = bs;
   { int xi = B_RAW(pl, R_INOUT, F_I64, 61, bytes_of_vec_znx_big(e->fft64, rs > as ? rs : as), 8); if (rs > as) pl->b[xi].live_bytes1 = as * e->N * 8 + 1; }
   B_RAW(pl, R_IN, F_I64, 61, bytes_of_vec_znx_big(e->fft64, bs), 8);
-  pl->s[0] = rng_sbits(r, 1 + (unsigned)(rng_u64(r) % 62));
-  { const uint64_t q = rng_u64(r) % 5; if (q == 0) pl->s[0] = (int64_t)(2 * e->N) * rng_sbits(r, 1 + (unsigned)(rng_u64(r) % 40)); else if (q == 1) pl->s[0] = (int64_t)e->N * (2 * rng_sbits(r, 20) + 1); }
+  pl->s[0] = plan_p(r, e->N);
   SHAPE(pl, "%s", szc(rs, as));
 }
 #define IPB(NAME, EXPR) static void call_##NAME(const opplan_t* pl, void* const p[], const env_t* e) { const MODULE* M = e->fft64; uint64_t rs = pl->u[0], as = pl->u[1], bs = pl->u[2]; (void)bs; EXPR; }
@@ -753,7 +769,7 @@ static void plan_big2(opplan_t* pl, rng_t* r, const env_t* e, char ka, char kb) 
   else B_ZV(pl, R_IN, F_I64, 61, e->N, as, rsl(r, e->N));
   if (kb == 'B') B_RAW(pl, R_IN, F_I64, 61, bytes_of_vec_znx_big(e->fft64, bs), 8);
   else if (kb == 'S') B_ZV(pl, R_IN, F_I64, 61, e->N, bs, rsl(r, e->N));
-  pl->s[0] = rng_sbits(r, 1 + (unsigned)(rng_u64(r) % 62));
+  pl->s[0] = plan_p(r, e->N);
   SHAPE(pl, "%s", szc(rs, as));
 }
 #define BIGPLAN(NAME, KA, KB) static void plan_##NAME(opplan_t* pl, rng_t* r, const env_t* e) { plan_big2(pl, r, e, KA, KB); }
@@ -901,7 +917,8 @@ TCALL(r4_from, reim4_from_cplx(e->r4_from, p[0], p[1]))
 TCALL(r4_to, reim4_to_cplx(e->r4_to, p[0], p[1]))
 static void plan_from_znx64(opplan_t* pl, rng_t* r, const env_t* e) { (void)r; B_RAW(pl, R_OUT, F_NONE, 0, 2 * e->m * 8, 8); B_RAW(pl, R_IN, F_I64, 49, 2 * e->m * 8, 8); }
 TCALL(from_znx64, reim_from_znx64(e->from_znx64, p[0], p[1]))
-static void plan_to_znx64(opplan_t* pl, rng_t* r, const env_t* e) { (void)r; B_RAW(pl, R_OUT, F_NONE, 0, 2 * e->m * 8, 8); B_RAW(pl, R_IN, F_DBLINT, 45, 2 * e->m * 8, 8); }
+// (the environment's table is declared for |x/d| < 2^63 with d = m: one plan in four uses magnitudes up to 2^61, beyond what the fast 2^50 kernel covers)
+static void plan_to_znx64(opplan_t* pl, rng_t* r, const env_t* e) { B_RAW(pl, R_OUT, F_NONE, 0, 2 * e->m * 8, 8); B_RAW(pl, R_IN, F_DBLINT, (rng_u64(r) & 3) ? 45 : 61, 2 * e->m * 8, 8); }
 TCALL(to_znx64, reim_to_znx64(e->to_znx64, p[0], p[1]))
 static void plan_to_tnx(opplan_t* pl, rng_t* r, const env_t* e) { (void)r; B_RAW(pl, R_OUT, F_NONE, 0, 2 * e->m * 8, 8); B_RAW(pl, R_IN, F_DBL, 10, 2 * e->m * 8, 8); }
 TCALL(to_tnx, reim_to_tnx(e->to_tnx, p[0], p[1]))
@@ -988,10 +1005,10 @@ static void call_q_save(const opplan_t* pl, void* const p[], const env_t* e) { q
 
 // --- coefficient kernels (nn = N)
 static void plan_k3(opplan_t* pl, rng_t* r, const env_t* e) { (void)r; B_RAW(pl, R_OUT, F_NONE, 0, e->N * 8, 8); B_RAW(pl, R_IN, F_I64, 61, e->N * 8, 8); B_RAW(pl, R_IN, F_I64, 61, e->N * 8, 8); }
-static void plan_k2(opplan_t* pl, rng_t* r, const env_t* e) { B_RAW(pl, R_OUT, F_NONE, 0, e->N * 8, 8); B_RAW(pl, R_IN, F_I64, 61, e->N * 8, 8); pl->s[0] = rng_sbits(r, 1 + (unsigned)(rng_u64(r) % 62)); }
-static void plan_k2d(opplan_t* pl, rng_t* r, const env_t* e) { B_RAW(pl, R_OUT, F_NONE, 0, e->N * 8, 8); B_RAW(pl, R_IN, F_DBLINT, 50, e->N * 8, 8); pl->s[0] = rng_sbits(r, 1 + (unsigned)(rng_u64(r) % 62)); }
-static void plan_k1(opplan_t* pl, rng_t* r, const env_t* e) { B_RAW(pl, R_INOUT, F_I64, 61, e->N * 8, 8); pl->s[0] = rng_sbits(r, 1 + (unsigned)(rng_u64(r) % 62)); }
-static void plan_k1d(opplan_t* pl, rng_t* r, const env_t* e) { B_RAW(pl, R_INOUT, F_DBLINT, 50, e->N * 8, 8); pl->s[0] = rng_sbits(r, 1 + (unsigned)(rng_u64(r) % 62)); }
+static void plan_k2(opplan_t* pl, rng_t* r, const env_t* e) { B_RAW(pl, R_OUT, F_NONE, 0, e->N * 8, 8); B_RAW(pl, R_IN, F_I64, 61, e->N * 8, 8); pl->s[0] = plan_p(r, e->N); }
+static void plan_k2d(opplan_t* pl, rng_t* r, const env_t* e) { B_RAW(pl, R_OUT, F_NONE, 0, e->N * 8, 8); B_RAW(pl, R_IN, F_DBLINT, 50, e->N * 8, 8); pl->s[0] = plan_p(r, e->N); }
+static void plan_k1(opplan_t* pl, rng_t* r, const env_t* e) { B_RAW(pl, R_INOUT, F_I64, 61, e->N * 8, 8); pl->s[0] = plan_p(r, e->N); }
+static void plan_k1d(opplan_t* pl, rng_t* r, const env_t* e) { B_RAW(pl, R_INOUT, F_DBLINT, 50, e->N * 8, 8); pl->s[0] = plan_p(r, e->N); }
 #define KCALL(NAME, EXPR) static void call_##NAME(const opplan_t* pl, void* const p[], const env_t* e) { (void)pl; EXPR; }
 KCALL(znx_add_ref, znx_add_i64_ref(e->N, p[0], p[1], p[2])) KCALL(znx_add_avx, znx_add_i64_avx(e->N, p[0], p[1], p[2]))
 KCALL(znx_sub_ref, znx_sub_i64_ref(e->N, p[0], p[1], p[2])) KCALL(znx_sub_avx, znx_sub_i64_avx(e->N, p[0], p[1], p[2]))
@@ -1633,6 +1650,9 @@ void pristine_start(void) {
       pid_t c = fork();
       if (c == 0) {
         close(pp[0]);
+#if !VP_ASAN && !VP_TSAN
+        mallopt(M_PERTURB, 0x3C);  // (another heap-perturbation byte than the workload's)
+#endif
         env_t* e = env_create(q.N, q.native);
         opres_t r;
         op_exec(&OPS[q.op], e, q.seed, q.prefill, q.mis, 0, &r);
@@ -2038,6 +2058,11 @@ static uint64_t life_use(int kind, uint64_t N, void* obj, const char** why) {
 }
 typedef struct {
   rng_t* r;
+  rng_t own_rng;
+  int deferred;       // worker thread of the concurrent variant: violations are kept in err[] and reported by the main thread after the join
+  char err[2][400];
+  int nerr, steps;
+  pthread_barrier_t* bar;
   int cfg, nk, cap, live, nviol;
   int kinds[LK_NKINDS];
   lobj_t* pool;
@@ -2053,18 +2078,29 @@ static void life_check(lifectx_t* c, const lobj_t* ob) {
   const uint64_t hh = life_use(ob->kind, ob->N, ob->obj, &why);
   c->uses++;
   if (why) {
-    if (c->nviol++ < 3) viol("oracle", "%s of dimension %" PRIu64 " (object number %" PRIu64 " created, %" PRIu64 " destroyed so far, %d alive): %s", LK_NAME[ob->kind], ob->N, c->created, c->destroyed, c->live, why);
+    if (c->deferred) {
+      if (c->nerr < 2) snprintf(c->err[c->nerr++], 400, "%s of dimension %" PRIu64 " created and used by one thread while other threads create, use and destroy their own objects: %s", LK_NAME[ob->kind], ob->N, why);
+    } else if (c->nviol++ < 3)
+      viol("oracle", "%s of dimension %" PRIu64 " (object number %" PRIu64 " created, %" PRIu64 " destroyed so far, %d alive): %s", LK_NAME[ob->kind], ob->N, c->created, c->destroyed, c->live, why);
     return;
   }
   uint64_t* rf = &life_ref[c->cfg & 3][ob->kind][ni];
-  if (!*rf) *rf = hh;
-  else if (*rf != hh && c->nviol++ < 3)
-    viol("differential", "%s of dimension %" PRIu64 " computes other bits than the first such object of the process (%" PRIu64 " created, %" PRIu64 " destroyed so far, %d alive)", LK_NAME[ob->kind], ob->N, c->created, c->destroyed, c->live);
+  uint64_t cur = __atomic_load_n(rf, __ATOMIC_RELAXED);
+  if (!cur) {
+    if (!c->deferred) __atomic_store_n(rf, hh, __ATOMIC_RELAXED);  // (references are only taken from single-threaded phases)
+    return;
+  }
+  if (cur != hh) {
+    if (c->deferred) {
+      if (c->nerr < 2) snprintf(c->err[c->nerr++], 400, "%s of dimension %" PRIu64 " created and used by one thread while other threads create, use and destroy their own objects computes other bits than such an object built alone", LK_NAME[ob->kind], ob->N);
+    } else if (c->nviol++ < 3)
+      viol("differential", "%s of dimension %" PRIu64 " computes other bits than the first such object of the process (%" PRIu64 " created, %" PRIu64 " destroyed so far, %d alive)", LK_NAME[ob->kind], ob->N, c->created, c->destroyed, c->live);
+  }
 }
 static void* life_step(void* arg) {
   lifectx_t* c = arg;
   rng_t* r = c->r;
-  set_dispatch(c->cfg);  // (the H1 hook's setting is read by the constructors: the same in whichever thread runs the step)
+  if (!c->deferred) set_dispatch(c->cfg);  // (the H1 hook's setting is read by the constructors: the same in whichever thread runs the step)
   const unsigned a = (unsigned)(rng_u64(r) % 8);
   if ((a < 3 && c->live < c->cap) || c->live == 0) {
     const int kind = c->kinds[rng_u64(r) % (uint64_t)c->nk];
@@ -2154,6 +2190,77 @@ void ops_lifecycle_case(const char* key, unsigned kindmask, int cfg, int steps, 
   case_end(c.uses > 0);
 }
 
+// T threads run the lifecycle fuzz at the same time, each on its own pool of objects (nothing is shared between them): a constructor
+// or destructor in one thread overlaps constructors, destructors and uses of UNRELATED objects in the others. The reference
+// results are those of objects built and used alone (taken in the single-threaded phase before the threads start).
+static void* life_thread(void* arg) {
+  lifectx_t* c = arg;
+  pthread_barrier_wait(c->bar);
+  for (int st = 0; st < c->steps; st++) life_step(c);
+  for (int i = 0; i < c->live; i++) life_check(c, &c->pool[i]);
+  while (c->live) {
+    c->live--;
+    life_del(c->pool[c->live].kind, c->pool[c->live].obj);
+    c->destroyed++;
+  }
+  return 0;
+}
+void ops_concurrent_lifecycle_case(const char* key, unsigned kindmask, int cfg, int T, int steps, unsigned rep, const char* counter) {
+  char k[240];
+  snprintf(k, sizeof k, "%s|object lifecycle: %d threads create/use/destroy their own objects at once%s%s", key, T, cfg == DISP_NATIVE ? "" : ",", cfg == DISP_NATIVE ? "" : disp_name[cfg]);
+  if (!case_begin(k, "kinds=%#x steps=%d rep=%u", kindmask, steps, rep)) return;
+  rng_t* r = crng();
+  const int saved = g_dispatch_native;
+  set_dispatch(cfg);
+  if (cfg != DISP_NATIVE && cfg != DISP_AVX2_ONLY) kindmask &= ~((1u << LK_MOD_NTT120) | (1u << LK_NTT) | (1u << LK_INTT));
+  if (T > 16) T = 16;
+  lifectx_t* c = calloc((size_t)T + 1, sizeof *c);
+  // single-threaded phase: one object of every (kind, dimension) built and used alone gives the reference bits
+  {
+    lifectx_t* m = &c[T];
+    m->r = r;
+    m->cfg = cfg;
+    for (int kind = 0; kind < LK_NKINDS; kind++)
+      if (kindmask & (1u << kind))
+        for (size_t ni = 0; ni < ARRAY_LEN(LIFE_NS); ni++) {
+          lobj_t ob = {kind, LIFE_NS[ni], life_new(kind, LIFE_NS[ni])};
+          life_check(m, &ob);
+          life_del(kind, ob.obj);
+        }
+  }
+  pthread_barrier_t bar;
+  pthread_barrier_init(&bar, 0, (unsigned)T);
+  pthread_t tid[16];
+  for (int t = 0; t < T; t++) {
+    c[t].cfg = cfg;
+    c[t].deferred = 1;
+    c[t].steps = steps;
+    c[t].bar = &bar;
+    c[t].cap = 6;
+    c[t].pool = calloc(8, sizeof(lobj_t));
+    rng_seed(&c[t].own_rng, rng_u64(r), (uint64_t)t + 1);
+    c[t].r = &c[t].own_rng;
+    for (int i = 0; i < LK_NKINDS; i++)
+      if (kindmask & (1u << i)) c[t].kinds[c[t].nk++] = i;
+    pthread_create(&tid[t], 0, life_thread, &c[t]);
+  }
+  uint64_t uses = 0, created = 0;
+  for (int t = 0; t < T; t++) {
+    pthread_join(tid[t], 0);
+    for (int e = 0; e < c[t].nerr; e++) viol("differential", "%s (thread %d of %d, %s dispatch)", c[t].err[e], t, T, disp_name[cfg]);
+    uses += c[t].uses;
+    created += c[t].created;
+    free(c[t].pool);
+  }
+  pthread_barrier_destroy(&bar);
+  free(c);
+  set_dispatch(saved);
+  cnt(counter, uses);
+  cnt("lifecycle_objects_created", created);
+  sample("%d threads, %" PRIu64 " objects created / used / destroyed concurrently (private pools), %" PRIu64 " uses equal to objects built alone", T, created, uses);
+  case_end(uses > 0);
+}
+
 // ---------------------------------------------------------------- in-place ring maps after a long history
 // The in-place rotation / automorphism walk cycles of positions; bookkeeping that survives between calls (visit marks,
 // generation stamps) only shows when a call comes exactly 2^8 or 2^16 calls after the one that left the marks, with
@@ -2202,7 +2309,9 @@ void ops_ring_history_case(int which, uint64_t N, int64_t pA, uint64_t N2, int64
   int64_t* wb = malloc(4 * N2 * 8);
   wrongA += (uint64_t)ring_once(which, MA, N, pA, rep, 1, wa);
   calls++;
+  size_t heap0 = 0;
   for (int g = 0; g < 2; g++) {
+    if (g == 1) heap0 = heap_in_use();
     for (int i = 1; i < GAP[g]; i++) {
       wrongB += (uint64_t)ring_once(which, MB, N2, pB, (uint64_t)i, i < 4, wb);
       calls++;
@@ -2211,6 +2320,11 @@ void ops_ring_history_case(int which, uint64_t N, int64_t pA, uint64_t N2, int64
     if (b && firstbad < 0) firstbad = GAP[g];
     wrongA += (uint64_t)b;
     calls++;
+  }
+  {
+    const size_t heap1 = heap_in_use();
+    if (heap0 && heap1 > heap0 + (512u << 10))
+      viol("history", "%s (N=%" PRIu64 ", p=%" PRId64 " / N=%" PRIu64 ", p=%" PRId64 "): the heap in use grew by %zu bytes during 65536 in-place and out-of-place calls (the harness allocates nothing in between): memory kept per call", nm[which], N, pA, N2, pB, heap1 - heap0);
   }
   free(wa);
   free(wb);
@@ -2247,5 +2361,114 @@ void ops_recontent_case(const char* key, const char* const* names, int n, uint64
   env_destroy(e);
   cnt(counter, calls);
   sample("%d entry points x %d argument sets: second call on the same buffers with other data equals a fresh call", n, reps);
+  case_end(calls > 0);
+}
+
+// ---------------------------------------------------------------- calls from a thread with a small stack
+// Nothing in the API states a stack requirement, and every entry point takes its scratch from the caller: a thread with a
+// 256 KiB stack (twice the default of musl, a fraction of glibc's 8 MiB) must be able to make every call at the largest
+// dimension. Scratch moved to a variable-length array (8 N bytes = 512 KiB at N = 65536) runs off such a stack: the guard page
+// below it turns that into SIGSEGV, which the driver reports for the running case.
+typedef struct {
+  const char* const* names;
+  int n, reps;
+  const env_t* e;
+  uint64_t seed, calls, hash;
+} sstk_t;
+static void* sstk_worker(void* arg) {
+  sstk_t* s = arg;
+  for (int i = 0; i < s->n; i++) {
+    const opdef_t* o = op_lookup(s->names[i]);
+    if (!o) continue;
+    for (int k = 0; k < s->reps; k++) {
+      opres_t r;
+      op_exec(o, s->e, mix64(s->seed + (uint64_t)i * 131 + (uint64_t)k), k & 3, (unsigned)k, 0, &r);
+      if (r.skipped) continue;
+      s->calls++;
+      s->hash = mix64(s->hash ^ r.out_hash);
+    }
+  }
+  return 0;
+}
+void ops_small_stack_case(const char* key, const char* const* names, int n, uint64_t N, int cfg, unsigned stack_kib, int reps, unsigned rep, const char* counter) {
+  char k[200];
+  snprintf(k, sizeof k, "%s|called from a thread with a %u KiB stack%s%s", key, stack_kib, cfg == DISP_NATIVE ? "" : ",", cfg == DISP_NATIVE ? "" : disp_name[cfg]);
+  if (!case_begin(k, "N=%" PRIu64 " rep=%u", N, rep)) return;
+  env_t* e = env_create(N, cfg);
+  sstk_t big = {names, n, reps, e, G.seed * 977 + rep + N, 0, 0}, small = big;
+  sstk_worker(&big);  // the same calls from the main thread first (reference results)
+  pthread_attr_t at;
+  pthread_attr_init(&at);
+  pthread_attr_setstacksize(&at, (size_t)stack_kib << 10);
+  pthread_attr_setguardsize(&at, 1 << 16);
+  pthread_t t;
+  if (pthread_create(&t, &at, sstk_worker, &small)) harness_fail("cannot create a thread with a %u KiB stack", stack_kib);
+  pthread_join(t, 0);
+  pthread_attr_destroy(&at);
+  if (small.hash != big.hash || small.calls != big.calls) viol("differential", "calls made from a thread with a %u KiB stack return other bits than the same calls from the main thread (N=%" PRIu64 ")", stack_kib, N);
+  env_destroy(e);
+  cnt(counter, small.calls);
+  sample("%" PRIu64 " calls at N=%" PRIu64 " from a thread with a %u KiB stack equal to the main thread's", small.calls, N, stack_kib);
+  case_end(small.calls > 0);
+}
+
+
+// ---------------------------------------------------------------- allocation failure inside a call
+// No entry point of the unchanged library allocates once its objects exist (scratch comes from the caller), so nothing can
+// fail. A call that does ask for memory and is refused has two honest outcomes: abort, or the correct result by another
+// route; a silently different result is a violation. Each call is first made normally (which also creates any lazily built
+// table), then repeated in a forked child in which every malloc-family request made inside the call fails.
+void ops_oom_case(const char* key, const char* const* names, int n, uint64_t N, int cfg, int reps, unsigned rep, const char* counter) {
+  if (!vp_oom_available()) return;
+  char k[200];
+  snprintf(k, sizeof k, "%s|allocation failure inside the call%s%s", key, cfg == DISP_NATIVE ? "" : ",", cfg == DISP_NATIVE ? "" : disp_name[cfg]);
+  if (!case_begin(k, "N=%" PRIu64 " rep=%u", N, rep)) return;
+  env_t* e = env_create(N, cfg);
+  uint64_t calls = 0, injected = 0, died = 0;
+  int nv = 0;
+  for (int i = 0; i < n; i++) {
+    const opdef_t* o = op_lookup(names[i]);
+    if (!o) harness_fail("ops_oom_case: unknown entry %s", names[i]);
+    if (strstr(o->name, "fresh table")) continue;  // (these entries build a table inside the call)
+    for (int sidx = 0; sidx < reps; sidx++) {
+      const uint64_t seed = mix64(G.seed * 271 + rep * 1013 + (uint64_t)sidx * 5 + (uint64_t)i);
+      opres_t ref;
+      op_exec(o, e, seed, sidx & 3, (unsigned)sidx, 0, &ref);
+      if (ref.skipped) continue;
+      calls++;
+      int pp[2];
+      if (pipe(pp)) continue;
+      fflush(0);
+      const pid_t c = fork();
+      if (c == 0) {
+        close(pp[0]);
+        opres_t r;
+        op_exec_oom = 1;
+        op_exec(o, e, seed, (sidx + 1) & 3, (unsigned)sidx + 1, 0, &r);
+        op_exec_oom = 0;
+        uint64_t msg[2] = {r.out_hash, vp_oom_failed()};
+        if (write(pp[1], msg, sizeof msg) != (ssize_t)sizeof msg) _exit(3);
+        _exit(0);
+      }
+      close(pp[1]);
+      uint64_t msg[2] = {0, 0};
+      const int got = c > 0 && read(pp[0], msg, sizeof msg) == (ssize_t)sizeof msg;
+      close(pp[0]);
+      int st = 0;
+      if (c > 0) waitpid(c, &st, 0);
+      if (!got) {
+        died++;  // aborted or crashed on the refused request: not a result
+        continue;
+      }
+      if (msg[1]) injected += msg[1];
+      if (msg[1] && msg[0] != ref.out_hash && nv++ < 3)
+        viol("oracle", "%s [N=%" PRIu64 " shape=%s, %s]: %" PRIu64 " allocation request(s) made inside the call were refused and the call returned OTHER bits than with memory available, without any error", o->name, N, ref.shape, disp_name[cfg], msg[1]);
+    }
+  }
+  env_destroy(e);
+  cnt(counter, calls);
+  cnt("allocation_failures_injected", injected);
+  cnt("calls_that_died_on_a_refused_allocation", died);
+  sample("%" PRIu64 " calls repeated with every allocation request inside the call refused: %" PRIu64 " requests refused, %" PRIu64 " calls died, none returned other bits", calls, injected, died);
   case_end(calls > 0);
 }
